@@ -29,6 +29,10 @@ structure Sys where
   trace : List String := []   -- reversed
   polls : Nat := 0
   consecutive : Nat := 0
+  /-- idle points so far -/
+  idles : Nat := 0
+  /-- first idle point at which a spurious poll makes progress -/
+  lw : Option Nat := none
 
 inductive Outcome where
   | ok | err (k : ErrKind) | idle | stalled | spin
@@ -115,6 +119,51 @@ def idleLoop : Nat → Sys → IdleRes × Sys
 def idleFuel (s : Sys) : Nat :=
   s.ev.length + 8 + (match s.w.consumer with | some (_, st) => st.length + 1 | none => 0)
 
+/-- `c04_sim.rs` `PROBE_POLLS` -/
+def probePolls : Nat := 8
+/-- `props/c04.rs` `MAX_PROBED_IDLE` -/
+def maxProbedIdle : Nat := 16
+
+/-- what the peer can see, per side of the socket -/
+structure Snap where
+  readWaiter : Bool
+  writeWaiter : Bool
+  accepted : Nat
+  input : Nat × Bool × Bool
+  shutdownStarted : Bool
+  deriving DecidableEq
+
+def snap (w : World) : Snap :=
+  { readWaiter := (w.sem .r).waiting || w.silentWaiting
+    writeWaiter := (w.sem .w).waiting || (w.sem .f).waiting || (w.sem .s).waiting
+    accepted := w.accepted
+    input := (w.wireLeft, w.eofSeen, w.resetSeen)
+    shutdownStarted := w.shutdownCalled }
+
+/-- poll spuriously, again while the task wakes itself; `true` = the future completed -/
+def probeRun (e : Env) (bigFuel : Nat) : Nat → D → World → Bool × D × World
+  | 0, d, w => (false, d, w)
+  | n + 1, d, w =>
+    match poll e bigFuel 2 d { w with woken := false } with
+    | (.pending, d', w') => if w'.woken then probeRun e bigFuel n d' w' else (false, d', w')
+    | (_, d', w') => (true, d', w')
+
+/-- The quiescence probe (`c04_sim.rs`): does a spurious poll of a task that is Pending and not
+woken make progress the peer can see, on a side of the socket the task is not waiting on? -/
+def probeIdle (e : Env) (bigFuel : Nat) (d : D) (w : World) : Bool × D × World :=
+  let b := snap w
+  let (ready, d', w') := probeRun e bigFuel probePolls d w
+  let a := snap w'
+  ((ready && !b.writeWaiter) ||
+    (!b.readWaiter && (a.readWaiter || b.input != a.input)) ||
+    (!b.writeWaiter && (a.writeWaiter || b.accepted != a.accepted || b.shutdownStarted != a.shutdownStarted)),
+   d', w')
+
+/-- the probe in the final idle/stalled state: additionally, a timer armed by the probe counts -/
+def probe (e : Env) (bigFuel : Nat) (s : Sys) : Bool :=
+  let (p, d', w') := probeIdle e bigFuel s.d s.w
+  p || (advanceTime d' { w' with woken := false }).isSome
+
 /-- the executor's main loop -/
 def run (e : Env) (bigFuel : Nat) : Nat → Sys → Outcome × Sys
   | 0, s => (.spin, s)
@@ -133,17 +182,13 @@ def run (e : Env) (bigFuel : Nat) : Nat → Sys → Outcome × Sys
             let (_, s) := deliverOne { s with consecutive := 0 } true
             run e bigFuel fuel s
         else
-          let s := { s with consecutive := 0, trace := ("I" ++ waiters w) :: s.trace }
+          let lw :=
+            if s.lw.isNone && s.idles < maxProbedIdle && (probeIdle e bigFuel d w).1 then some s.idles
+            else s.lw
+          let s := { s with consecutive := 0, trace := ("I" ++ waiters w) :: s.trace,
+                            idles := s.idles + 1, lw := lw }
           match idleLoop (idleFuel s) s with
           | (.runnable, s) => run e bigFuel fuel s
           | (.final o, s) => (o, s)
-
-/-- the quiescence probe: does one spurious poll in the final state make progress? -/
-def probe (e : Env) (bigFuel : Nat) (s : Sys) : Bool :=
-  let w0 := { s.w with woken := false }
-  match poll e bigFuel 2 s.d w0 with
-  | (.pending, d, w) =>
-    w.woken || waiters w != waiters w0 || w.accepted != w0.accepted || (advanceTime d w).isSome
-  | _ => true
 
 end ActixModel.Exec
